@@ -777,7 +777,14 @@ func readSpecFile(path string, pkgPath string) (*SpecFile, error) {
 				if curLoop == nil {
 					panic(fmt.Errorf("%s:%d: invariant outside loop", path, rc.line))
 				}
-				curLoop.Invariants = append(curLoop.Invariants, Clause{E: mustExpr(rc, rc.text), Text: rc.text, Line: rc.line})
+				itext, ilabel := rc.text, ""
+				if strings.HasPrefix(itext, "[") {
+					if i := strings.IndexByte(itext, ']'); i > 0 {
+						ilabel = itext[1:i]
+						itext = strings.TrimSpace(itext[i+1:])
+					}
+				}
+				curLoop.Invariants = append(curLoop.Invariants, Clause{E: mustExpr(rc, itext), Text: itext, Name: ilabel, Line: rc.line})
 			case "flag":
 				if cur == nil {
 					panic(fmt.Errorf("%s:%d: flag outside func", path, rc.line))
